@@ -14,6 +14,18 @@ CLAIMED = {
         technique="static table evaluation + per-path effect extraction over a hand-built CFG (ast)",
         ref="4/C04",
     ),
+    "C28": dict(
+        level="proof",
+        text="Exhaustive over a finite space: code_to_category's clause chain is read from the syntax "
+        "tree and evaluated on all 65536 status values against the PS3.7 Annex C classes; all status "
+        "tables are rebuilt statically (literals, range loops, .update) and every one of their entries "
+        "compared with that map; the SCU/SCP finality tests are shown to read those sources.",
+        note="Trusted: CPython ast; spec/ps3_7_status.json (hand transcription of PS3.7 Annex C); the "
+        "module-level table interpreter in sa/consteval.py (an unmodelled write to a table is "
+        "ANALYSIS-ERROR). Tables added at run time by users are outside the analysed program.",
+        technique="static evaluation of literal tables and an if-chain into an interval map (ast), exhaustive comparison",
+        ref="4/C28",
+    ),
 }
 
 PENDING = "designed in DESIGN.md section 4, checker not built yet - not claimed through a stub"
